@@ -121,11 +121,15 @@ Proof.
       * eapply PL_cons; [exact E0|exact G|unfold clen; lia|exact Hp].
 Qed.
 
+Lemma pname_labels_unfold m p :
+  pname_labels m p = iter_labels PARSE_FUEL m (pn_pos p) (pn_len p) [].
+Proof. reflexivity. Qed.
+
 Theorem denotes_parsed_pname m p n : pname_labels m p = Ok (n, true) -> flat_ok m p (n ++ [[]]) ->
   denotes (NParsed m p) (n ++ [[]]).
 Proof.
-  intros H F.
-  destruct (iter_labels_plabels m PARSE_FUEL (pn_pos p) (pn_len p) [] n true H) as [ls [Hl Hp]].
+  intros H F. rewrite pname_labels_unfold in H.
+  apply iter_labels_plabels in H. destruct H as [ls [Hl Hp]].
   cbn [rev app] in Hl. subst ls. apply denotes_parsed; assumption.
 Qed.
 
@@ -161,4 +165,4 @@ Example parsed_example :
     m_name_eq (NParsed m p) (NFlat (wire_abs [[97];[66];[67]])) = Ok true /\
     m_name_cmp (NParsed m p) (NFlat (wire_abs [[97];[98];[99]])) = Ok Eq /\
     m_name_hash (NParsed m p) = m_name_hash (NFlat (wire_abs [[97];[98];[99]])).
-Proof. eexists. vm_compute. repeat split; reflexivity. Qed.
+Proof. exists (mkPName 17 7 true 21). vm_compute. repeat split; reflexivity. Qed.
